@@ -29,6 +29,7 @@ CONSTANTS Opcodes,    \* subset of {0, 4, 5}
           QuestionSel,\* subset of BOOLEAN: TRUE = a question may be added
           QMax,       \* questions per message (RFC 1035 allows QDCOUNT > 1)
           PayloadSel, \* advertised EDNS UDP payload sizes; 70000 = the one of the EDNS menu entry
+          TsigSel,    \* subset of BOOLEAN: TRUE = the low-level script ends with write_header ; add_tsig
           ChildMax    \* record sets whose owner is a CHILD of the previous record set's owner (deep pointer chains)
 VARIABLE hist
 TtlOne == {<<0, 300>>}
@@ -103,10 +104,10 @@ Fresh(r) == LET rs == MkRRset(r, RfcCmp, Zc) IN
 
 GInit ==
     \E op \in Opcodes, bits \in BitSel, rc \in RcodeSel, e \in EdnsSel, org \in OriginSel,
-       id \in IdSel, pad \in PadSel, zc \in ZoneClsSel, mx \in MaxSel, oi \in OptIdx, pl \in PayloadSel :
+       id \in IdSel, pad \in PadSel, zc \in ZoneClsSel, mx \in MaxSel, oi \in OptIdx, pl \in PayloadSel, ts \in TsigSel :
       /\ (rc > 15 => e # "off") /\ (pad > 0 => e # "off") /\ (op # OpUpdate => zc = ClsIN) /\ (oi > 0 => e # "off") /\ (pl <= 65535 => e # "off")
       /\ LET h == [op |-> "hdr", id |-> id, opcode |-> op, bits |-> bits, rcode |-> rc, origin |-> org,
-                   edns |-> WithPayload(WithOption(EdnsOf(e, rc), oi), pl), pad |-> pad, zcls |-> zc, max |-> mx]
+                   edns |-> WithPayload(WithOption(EdnsOf(e, rc), oi), pl), pad |-> pad, zcls |-> zc, max |-> mx, tsig |-> ts]
          IN hist = <<h>> /\ RInit(id, HdrFlags(h), mx)
 
 GQuestion ==
@@ -135,10 +136,16 @@ GChild ==
            r == Rec(1, <<<<99>>>> \o prev, "A", NoName, NoName, 1, 1, <<0, 300>>, "plain")
        IN /\ st.section <= 1 /\ AddRRset(1, MkRRset(r, RfcCmp, ClsIN)) /\ H([op |-> "rr"] @@ r)
 
+GenTsig == MkTsig(<<<<107>>, lex>>, <<<<104, 109, 97, 99, 45, 115, 104, 97, 50, 53, 54>>>>, <<0, 0, 95, 94, 16, 0>>, 300,
+                  Fill(32, 85), 4660, 0, <<>>)
 GEnd ==
     /\ hist[Len(hist)].op # "end"
     /\ (Hdr.opcode = OpUpdate => Len(hist) > 1)
-    /\ IF Hdr.edns[1] = "edns" THEN AddOpt(HdrOpt(Hdr), Hdr.pad, IF Hdr.pad > 0 THEN PlainSize(HdrOpt(Hdr)) + 4 ELSE 0, 0) ELSE UNCHANGED st
+    /\ LET S1 == IF Hdr.edns[1] = "edns"
+                  THEN FAddOpt(st, HdrOpt(Hdr), Hdr.pad, IF Hdr.pad > 0 THEN PlainSize(HdrOpt(Hdr)) + 4 ELSE 0, 0) ELSE st
+           \* low-level signing: header first, then the TSIG record (refused whole if it does not fit the budget)
+           S2 == IF Hdr.tsig THEN FAddTsig(FWriteHeader(S1), GenTsig, ~S1.padded) ELSE S1
+       IN st' = S2
     /\ H([op |-> "end"])
 
 GNext == GQuestion \/ GRec \/ GChild \/ GEnd
